@@ -446,7 +446,13 @@ def _report(prop, out, r, lines, tp, journal, wseed, bits, nb, endmode, exe, pla
     rep = not r2['accepted']
     c.rmtree(td)
     if not rep:
-        raise Broken('DiskTrace rejection did not repeat (seed %d bits %#x, violated %s)' % (wseed, bits, r['violated']))
+        # keep the evidence of a rejection that did not recur (schedule-dependent recovery?) so that it can be inspected
+        rd = c.replay_dir(prop, 'unrepeated')
+        shutil.copy(tp, os.path.join(rd, 'trace.ndjson')); shutil.copy(journal, os.path.join(rd, 'journal'))
+        json.dump(dict(kind='disk', prop=prop, workload=dict(seed=wseed, bits=bits, nb=nb, endmode=endmode, env=renv or {}), violated=r['violated'], line=idx, event=bad),
+                  open(os.path.join(rd, 'replay.json'), 'w'), indent=1)
+        c.save_tv(rd)
+        raise Broken('DiskTrace rejection did not repeat (seed %d bits %#x, violated %s; kept in %s)' % (wseed, bits, r['violated'], rd))
     rd = c.replay_dir(prop, 'disk')
     shutil.copy(tp, os.path.join(rd, 'trace.ndjson'))
     shutil.copy(journal, os.path.join(rd, 'journal'))
